@@ -256,17 +256,20 @@ def pipe_units(prop, san=False):
             for f in range(12):
                 us.append(U("pipe_%s_k%d_f%d" % (tier[0], k, f), "harness/c_pipeline.cpp", opt="-O0", family="pipe", shards=1, tiers=[tier],
                             flags=["-DPIPE_PROP=%d" % prop, "-DPIPE_KIND=%d" % k, "-DPIPE_FIRST=%d" % f, "-DPIPE_MAXDEPTH=%d" % depth]))
-                if tier == "thorough":   # the extended alphabet (8 more operations: roll, repeat, pad, take, broadcast_to, cumsum, multiply, matmul) at depth 2
-                    for f2 in ([f] if f < 12 else []) + ([12 + f] if f < 8 else []):
+                if tier == "thorough":   # the extended alphabet (9 more operations: roll, repeat, pad, take, broadcast_to, cumsum, multiply, matmul, atleast_nd<ct4>) at depth 2
+                    for f2 in ([f] if f < 12 else []) + ([12 + f] if f < 9 else []):
                         us.append(U("pipe_x_k%d_f%d" % (k, f2), "harness/c_pipeline.cpp", opt="-O0", family="pipe", shards=1, tiers=["thorough"],
                                     flags=["-DPIPE_PROP=%d" % prop, "-DPIPE_KIND=%d" % k, "-DPIPE_FIRST=%d" % f2, "-DPIPE_MAXDEPTH=2", "-DPIPE_THOROUGH_OPS"]))
+                if tier == "quick" and f == 0 and k in (2, 3, 4):   # quick tier: one extended operation (atleast_nd with a constant nd) as first stage, every operation as second
+                    us.append(U("pipe_q_x_k%d_f20" % k, "harness/c_pipeline.cpp", opt="-O0", family="pipe", shards=1, tiers=["quick"],
+                                flags=["-DPIPE_PROP=%d" % prop, "-DPIPE_KIND=%d" % k, "-DPIPE_FIRST=20", "-DPIPE_MAXDEPTH=2", "-DPIPE_THOROUGH_OPS"]))
                 if san and tier == "quick" and k in (3, 4):
                     us.append(U("pipe_san_k%d_f%d" % (k, f), "harness/c_pipeline.cpp", opt="-O1", san=True, family="pipe", shadow=True, shards=1, tiers=["quick", "thorough"], run_tier="quick",
                                 flags=["-DPIPE_PROP=%d" % prop, "-DPIPE_KIND=%d" % k, "-DPIPE_FIRST=%d" % f, "-DPIPE_MAXDEPTH=2"]))
     return us
 PIPE_BOUNDS = dict(quick="5 root kinds (constant shape (2,3) + fixed buffer; clipped <=(3,4); fixed dim 2; bounded dim <=3; dynamic) x their root shapes x all pipelines of depth <= 2 over 12 operations "
                          "(reshape, transpose, flip, expand_dims, slice, tile, add-with-broadcast, sum(axis) with run-time arguments; flip, expand_dims, sum, sum-keepdims with compile-time arguments) and their argument menus",
-                   thorough="same alphabet at depth <= 3, plus the extended 20-operation alphabet (adds roll, repeat, pad, take, broadcast_to, cumsum, multiply, matmul) at depth <= 2; all root shapes under the bounds")
+                   thorough="same alphabet at depth <= 3, plus the extended 21-operation alphabet (adds roll, repeat, pad, take, broadcast_to, cumsum, multiply, matmul, atleast_nd<ct4>) at depth <= 2; all root shapes under the bounds")
 PIPE_ASSUME = ["argument menus contain valid arguments only (invalid ones are C15's business)", "arrays are kept below 96 elements and dim 5",
                "a stage that would yield a scalar is not a pipeline stage", "reference model nmc_ref.hpp (audited against NumPy)"]
 CHECKS["C10"] = dict(
@@ -289,8 +292,12 @@ CHECKS["C02"] = dict(
     level_note=E1_NOTE,
     level_text="At every node of the program tree every element of the view is read and the view is evaluated while every BOUNDS hook event (packed index vs axis extent, buffer offset vs buffer length, "
                "utl container index vs size) must satisfy 0 <= index < extent and no CAPACITY event (bounded container asked to hold more than its capacity) may fire; the values read must be the designated ones.",
-    units=pipe_units(2, san=True), rule="case = program path; non-trivial = result has > 1 element; distinct = distinct key; bounds_events_checked counts the hook events inspected",
-    bounds=PIPE_BOUNDS, assumptions=PIPE_ASSUME + ["SIMD evaluation is covered by C12 (guard pages, ASan)"], min_outcomes=500, require_counts=dict(any=dict(transitions=5000, bounds_events_checked=1000000)),
+    units=pipe_units(2, san=True) + [U("hk_" + n, src, flags=["-DC02_HOOKS"] + fl, family="hk_" + n, weight=w, run_tier="quick") for (n, src, fl, w) in (
+        ("rearrange", "harness/c03_rearrange.cpp", [], 2), ("select", "harness/c04a_select.cpp", [], 3), ("stack", "harness/c04a_select.cpp", ["-DC04_STACK"], 1),
+        ("generate", "harness/c04b_generate.cpp", [], 2), ("slice", "harness/c05_slice.cpp", [], 2), ("broadcast", "harness/c06_broadcast.cpp", [], 2), ("reduce", "harness/c08_reduce.cpp", [], 3))],
+    rule="case = program path (pipeline units) or a case of the re-used single-view harness (hk_* units: the complete quick alphabets of the C03/C04/C05/C06/C08 harnesses with the BOUNDS hook installed); "
+         "non-trivial = result has > 1 element; distinct = distinct key; bounds_events_checked counts the hook events inspected",
+    bounds=PIPE_BOUNDS, assumptions=PIPE_ASSUME + ["SIMD evaluation is covered by C12 (guard pages, ASan)", "hk_* units: only out-of-range BOUNDS events decide; the re-used harness's own verdict belongs to its own property"], min_outcomes=500, require_counts=dict(any=dict(transitions=5000, bounds_events_checked=1000000)),
 )
 
 # ---- C09 (part 1): cross-build differential of the dynamic harnesses; (part 2, the container-kind matrix) is in harness/c09_kinds*.cpp
